@@ -1,15 +1,23 @@
 """C04 Selective loading equals filtering the full load (CPU pre-selection is sound)."""
+import os
+import warnings
 from fractions import Fraction
 
-from .. import hilbert_ref, lean, loadrun, ramses
+import numpy as np
+
+from .. import hilbert_ref, lean, loadrun, ramses, ucat
 from ..framework import Outcome, case_hash
 from .c01 import describe
 
 TRUSTED = ["Reference Hilbert curve (committed state diagram): ownership of the synthetic outputs is assigned with it, never with osyris' own table",
            "oct ownership = cpu whose key range holds the key of the oct centre at levelmax+1 bits (RAMSES cmp_cpumap / father-cell rule)"]
 ASSUMPTIONS = ["three-dimensional outputs (the only curve `_hilbert3d` implements); 1-D/2-D pre-selection is outside this check",
-               "bound keys below 2^53 (they are parsed through float)",
+               "bound keys of the synthetic outputs below 2^53 (they are parsed through float); the direct lane on deep levelmax uses keys that are exact in a double",
                "every interval predicate contains at least one finest-level cell centre (the property's quantifier)"]
+
+
+def ucat_rat(x):
+    return ucat.rat_str(Fraction(x))
 
 
 def gen_hilbert_output(r, ncpu=None, levelmin=None, levelmax=None, max_octs=120, bk_mode=None):
@@ -157,6 +165,61 @@ def run(ctx):
             out_.violations.append({"what": f"_hilbert3d{c} = {ki} but the reference curve gives {ks}", "case": {"xyzb": list(c)},
                                     "call_site": "_hilbert3d", "input_class": "key"})
             break
+    # `_get_cpu_list` called directly on deep outputs (levelmax 12..21: keys up to 8^22, far beyond what a synthetic
+    # output can hold): equal cube ranges as bound keys (exact in the float the info file is parsed through), boxes inside
+    # random cubes of the 4^3 / 8^3 grid. Model: Lean getCpuList (unbounded Nat); Spec: the owner of the cube that
+    # contains the box is in the list (theorem C04_box_sound)
+    import tempfile
+
+    ncase = 60 if ctx.tier == "quick" else 1200
+    direct, lines = [], []
+    for _ in range(ncase):
+        levelmax = r.choice([12, 19, 20, 21, 21])
+        g = r.choice([2, 3])                       # cubes of size 2^-g
+        ncpu = r.choice([8 ** g, 8 ** g // 4, 16])
+        tot = 8 ** (levelmax + 1)
+        bk = [tot * c // ncpu for c in range(ncpu + 1)]
+        cube = [r.randrange(2 ** g) for _ in range(3)]
+        w = Fraction(1, 2 ** g)
+        lo = [c * w + w * Fraction(r.randint(1, 6), 100) for c in cube]
+        hi = [c * w + w * Fraction(r.randint(60, 96), 100) for c in cube]
+        bb = {"xmin": float(lo[0]), "xmax": float(hi[0]), "ymin": float(lo[1]), "ymax": float(hi[1]), "zmin": float(lo[2]), "zmax": float(hi[2])}
+        direct.append((levelmax, g, ncpu, bk, cube, bb))
+        lines.append({"engine": "cpulist", "bb": {k2: ucat_rat(v) for k2, v in bb.items()}, "lmax": levelmax, "levelmax": levelmax,
+                      "ncpu": ncpu, "ndim": 3, "bk": bk, "mincube": g + 1})
+    answers = lean.run_driver(lines)
+    tmpd = tempfile.mkdtemp(prefix="osyris_verif_c04_")
+    try:
+        for (levelmax, g, ncpu, bk, cube, bb), ans in zip(direct, answers):
+            info = os.path.join(tmpd, "info.txt")
+            with open(info, "w") as f:
+                f.write("ordering type=hilbert\n   DOMAIN   ind_min                 ind_max\n")
+                for c in range(ncpu):
+                    f.write("%8d   %s   %s\n" % (c + 1, repr(float(bk[c])), repr(float(bk[c + 1]))))
+            out_.evaluations += 1
+            try:
+                with np.errstate(all="ignore"), warnings.catch_warnings():
+                    warnings.simplefilter("ignore")
+                    got = [int(x) for x in oh._get_cpu_list(bounding_box=dict(bb), lmax=levelmax, levelmax=levelmax, infofile=info,
+                                                             ncpu=ncpu, ndim=3, levelmin=g + 1)]
+            except Exception as e:  # noqa: BLE001
+                got = "raised " + type(e).__name__
+            case = {"levelmax": levelmax, "ncpu": ncpu, "cube": cube, "cube_bits": g, "bounding_box": bb}
+            if got != ans.get("model"):
+                out_.disagreements.append((case, f"_get_cpu_list = {got}, model {ans.get('model')}"))
+            # Spec: owner of the cube (all keys of the cube lie in one cpu range when ncpu divides 8^g, else the owner of its first key)
+            kcube = hilbert_ref.key(cube[0], cube[1], cube[2], g)
+            dk = 8 ** (levelmax + 1 - g)
+            owners = {c + 1 for c in range(ncpu) if bk[c] < (kcube + 1) * dk and bk[c + 1] > kcube * dk}
+            if isinstance(got, str) or not owners <= set(got):
+                out_.violations.append({"what": f"_get_cpu_list at levelmax {levelmax} returns {got}: the cpu(s) {sorted(owners)} owning the cube "
+                                                f"{cube} (level {g}) that contains the box are not all in the list",
+                                        "case": case, "call_site": "hilbert._get_cpu_list", "input_class": "deep_levelmax"})
+                break
+            dist["direct:levelmax%d" % levelmax] = dist.get("direct:levelmax%d" % levelmax, 0) + 1
+    finally:
+        import shutil
+        shutil.rmtree(tmpd, ignore_errors=True)
     extra_search = 0
     i = -1
     while True:
